@@ -33,7 +33,7 @@ def run_one(name: str):
             out = subprocess.run(["/venv/bin/python", "-c", f"import sys; sys.argv=['sa','check','{p}']; from sa.__main__ import evaluate; from sa.core import AnalysisError\n"
                                   f"try:\n ctx=evaluate('{p}')\n from sa.report import load_known; k,_=load_known(); new=[f for f in ctx.findings if f.key not in k]\n print('FIRED' if new else 'SILENT'); [print('  ', f) for f in new[:4]]\nexcept AnalysisError as e:\n print('UNDECIDED', str(e)[:300])"],
                                  cwd=VERIF, env=env, capture_output=True, text=True)
-            txt = out.stdout.strip() or out.stderr.strip()[-300:]
+            txt = out.stdout.strip() if out.stdout.strip().split("\n")[0].split(" ")[0] in ("FIRED", "SILENT", "UNDECIDED") else "UNDECIDED crash: " + (out.stderr.strip()[-300:] or out.stdout.strip()[-300:])
             res[p] = txt
         return name, res
     finally:
